@@ -16,14 +16,14 @@ LOG="$OUT/confirm.log"; : > "$LOG"
 cd "$WT"
 {
 echo "== base commit: $(git rev-parse --short HEAD)"
-git apply --check "$OUT/demo.diff" && git apply "$OUT/demo.diff" || { echo "DEMO DIFF DOES NOT APPLY"; }
+git apply "$OUT/demo.diff" 2>/dev/null || patch -p1 -F3 -s < "$OUT/demo.diff" || { echo "DEMO DIFF DOES NOT APPLY"; }
 echo "== demo on unchanged tree: $*"
 "$@" > "$OUT/confirm_demo_clean.log" 2>&1; echo "exit=$?"; grep -E "^test result|panicked|FAILED|assert" "$OUT/confirm_demo_clean.log" | head -5
-git apply --check "$OUT/patch.diff" && git apply "$OUT/patch.diff" || { echo "PATCH DOES NOT APPLY"; }
+git apply "$OUT/patch.diff" 2>/dev/null || patch -p1 -F3 -s < "$OUT/patch.diff" || { echo "PATCH DOES NOT APPLY"; }
 echo "== demo with patch"
 "$@" > "$OUT/confirm_demo_patched.log" 2>&1; echo "exit=$?"; grep -E "^test result|panicked|FAILED|assert" "$OUT/confirm_demo_patched.log" | head -8
 echo "== repository suite with patch (demo removed)"
-git apply -R "$OUT/demo.diff"
+git stash -q; git apply "$OUT/patch.diff" 2>/dev/null || patch -p1 -F3 -s < "$OUT/patch.diff"
 unshare -rn sh -c "ip link set lo up; cargo test --workspace --no-fail-fast --offline -j 8" > "$OUT/confirm_suite_patched.log" 2>&1; echo "exit=$?"
 grep -E "^test result" "$OUT/confirm_suite_patched.log" | awk '{p+=$4; f+=$6} END {print "passed="p" failed="f}'
 } >> "$LOG" 2>&1
